@@ -13,7 +13,7 @@ class Prop:
     id = "C35"
     level = "exploration"
     engine = "VT+TH (virtual-time schedulers single-threaded; event-loop / new-thread / timeout schedulers under controlled threads)"
-    quick_runs = 12000
+    quick_runs = 30000
     thorough_runs = 400000
     quick_budget = 80.0
     chunk = 100
